@@ -13,7 +13,8 @@
 (*    stable : elements present and matching in every state so far,        *)
 (*    ever   : elements present and matching in some state so far,         *)
 (*    ret    : elements returned so far,                                   *)
-(*    calls  : calls made since `ever` last grew]                          *)
+(*    all    : elements present in some state so far, filters ignored,     *)
+(*    calls  : calls made since `all` last grew]                           *)
 (***************************************************************************)
 EXTENDS Streams
 
@@ -44,6 +45,12 @@ ScanElems(name, K, key, o) ==
                 [] name = "SSCAN" -> IF IsT(K, key, "set") THEN K[key].v ELSE {}
                 [] name = "ZSCAN" -> IF IsT(K, key, "zset") THEN DOMAIN K[key].v ELSE {}
   IN {e \in base : Glob(o.pat, e)}
+(* ... and without the MATCH / TYPE filters (what the server has to walk through) *)
+ScanAll(name, K, key) ==
+  CASE name = "SCAN" -> DOMAIN K
+    [] name = "HSCAN" -> IF IsT(K, key, "hash") THEN DOMAIN K[key].v ELSE {}
+    [] name = "SSCAN" -> IF IsT(K, key, "set") THEN K[key].v ELSE {}
+    [] name = "ZSCAN" -> IF IsT(K, key, "zset") THEN DOMAIN K[key].v ELSE {}
 
 (* the elements named by an observed reply <<cursor, array>>: every item for SCAN/SSCAN, every other item for
    HSCAN/ZSCAN (field value ... / member score ...) *)
@@ -67,7 +74,8 @@ ScanCall(name, a, K, it, obs) ==
     THEN {[r |-> RErr, it |-> it]}
     ELSE LET now == ScanElems(name, K, key, o)
              start == cur = L_zero
-             it0 == IF start THEN [k |-> "iter", cur |-> L_zero, stable |-> now, ever |-> now, ret |-> {}, calls |-> 0, o |-> o]
+             it0 == IF start THEN [k |-> "iter", cur |-> L_zero, stable |-> now, ever |-> now, ret |-> {}, calls |-> 0, o |-> o,
+                                   all |-> ScanAll(name, K, key)]
                     ELSE it
          IN IF ~start /\ (it = NoIter \/ it.cur # cur \/ it.o # o)
             THEN {[r |-> RAny, it |-> NoIter]}        \* a cursor the spec did not hand out: not prescribed
@@ -79,7 +87,7 @@ ScanCall(name, a, K, it, obs) ==
                  IN IF ~(got \subseteq it0.ever) THEN {}                          \* returned something that never existed / matched
                     ELSE IF ncur = L_zero
                     THEN (IF it0.stable \subseteq it1.ret THEN {[r |-> obs, it |-> NoIter]} ELSE {})   \* full iteration: the guarantee
-                    ELSE IF it1.calls > Cardinality(it0.ever) + 2 THEN {}         \* does not terminate although nothing grows
+                    ELSE IF it1.calls > Cardinality(it0.all) + 2 THEN {}          \* does not terminate although nothing grows
                     ELSE {[r |-> obs, it |-> it1]}
 
 (* every state change seen by an open iteration narrows `stable` and widens `ever` *)
@@ -87,8 +95,9 @@ ScanObserve(name, key, it, K) ==
   IF it = NoIter THEN it
   ELSE LET now == ScanElems(name, K, key, it.o) IN
        [it EXCEPT !.stable = @ \cap now,
-                  !.calls = IF now \subseteq it.ever THEN @ ELSE 0,
-                  !.ever = @ \cup now]
+                  !.calls = IF ScanAll(name, K, key) \subseteq it.all THEN @ ELSE 0,
+                  !.ever = @ \cup now,
+                  !.all = @ \cup ScanAll(name, K, key)]
 
 ScanCommands == {"SCAN", "HSCAN", "SSCAN", "ZSCAN"}
 =============================================================================
